@@ -5,3 +5,4 @@ import AdcProofs.StepsSound
 import AdcProofs.NormSound
 import AdcProofs.Props.Validator
 import AdcProofs.Tables
+import AdcProofs.Props.C06
